@@ -104,6 +104,17 @@ def position_docs(tier):
                 docs.append(("", "%s[t](\n%s%s) %s\n" % (ctxp, ind, dst, tl)))
                 docs.append(("", "%s[t](%s\n%s\"ti\") %s and %s\n" % (ctxp, dst, ind, tl, tl)))
                 docs.append(("", "%sa [t](\n%s%s\n%s) %s\n" % (ctxp, ind, dst, ind, tl)))
+    # inline raw HTML whose text contains `>` before its real end (attribute values, comments, processing instructions, CDATA),
+    # followed by further inline elements on the same and on the next line
+    tags = ['<b>', '<a href="x>y">', "<i title='a > b'>", '<kbd title="Ctrl > K">', '<!-- a -> b -->', '<?pi a > b?>', '<![CDATA[ a > b ]]>',
+            '<a\n href="u>v">', '</b >', '<br/>']
+    for ctxp in ("", "> ", "- "):
+        ind = "  " if ctxp == "- " else ctxp
+        for tg in tags:
+            tgc = tg.replace("\n", "\n" + ind)
+            for tl in tails:
+                docs.append(("", "%sPress %s then %s now\n" % (ctxp, tgc, tl)))
+                docs.append(("", "%sx %s y\n%s%s and %s z\n" % (ctxp, tgc, ind, tl, tgc)))
     return docs
 
 
